@@ -266,6 +266,41 @@ def run(tier: str, seed: int) -> int:
         rep.transitions += 2
         if na != nb:
             rep.violation(f"documented equivalence broken: {a} selects {len(na)} tests, {b} selects {len(nb)}", {"a": a, "b": b}, {"kind": "equivalence"})
+    # (iv) per-vm restrictions narrow the objects of the tests that are actually composed for a run (the loader's flat tests, restricted per vm,
+    # expanded on demand by a dry-run traversal): no composed test may use a vm variant the command line excludes
+    from vt.e4 import driver, parsemc
+
+    e2e = 0
+    selections = ["only=tutorial1", "only=leaves..tutorial_gui..client_noop", "only=tutorial3"]
+    vm_args = [["only_vm1=CentOS"], ["only_vm1=Fedora"], ["only_vm1=qemu_kvm_centos"], ["only_vm1=qemu_kvm_fedora"], ["only_vm1=Linux"], ["no_vm1=Fedora"],
+               ["only_vm2=Win7"], ["only_vm2=qemu_kvm_windows_10"], ["only_vm1=qemu_kvm_centos", "no_vm2=Win7"]]
+    if q:
+        vm_args = vm_args[:4] + vm_args[-1:]
+    for sel_arg in selections:
+        for va in vm_args:
+            c = {"params": [sel_arg] + va}
+            try:
+                cmd_parser.params_from_cmd(c)
+                x = driver.parse_lazy_complete({"id": "c11:" + " ".join(c["params"]), "restriction": c["tests_str"], "nets": "net1", "vm_strs": c["vm_strs"]})
+            except param.EmptyCartesianProduct:
+                continue
+            e2e += 1
+            rep.transitions += 1
+            if x.exc:
+                rep.violation(f"{c['params']}: expanding the selected tests failed with {x.exc}", {"args": c["params"]}, {"kind": "e2e-exception"})
+                continue
+            for n in x.graph.nodes:
+                if n.is_flat() or n.is_shared_root():
+                    continue
+                for o in n.objects:
+                    if o.key != "vms":
+                        continue
+                    restr = c["vm_strs"].get(o.suffix, "")
+                    if not parsemc.admits(restr, o.component_form):
+                        rep.violation(f"{c['params']}: the composed test {n.params['name'][:80]} uses {o.suffix} variant {o.component_form} which the restriction {restr!r} excludes",
+                                      {"args": c["params"], "test": n.params["name"]}, {"kind": "vm-restriction-not-applied"})
+            rep.distinct.add(("e2e", tuple(c["params"])))
+    rep.sections["composed_runs"] = e2e
     rep.states = n_lists
     rep.evaluations = n_lists
     rep.traces_validated = rep.transitions
